@@ -160,13 +160,30 @@ def insertSorted (q : Nat) : List Nat → List Nat
 /-- `target_qubits = tuple(sorted(matrix_map.keys()))`. -/
 def STerm.targets (t : STerm α) : List Nat := t.factors.foldl (fun acc s => insertSorted s.q acc) []
 
-def mat2Mul (A B : Nat → Nat → α) : Nat → Nat → α := fun i j => A i 0 * B 0 j + A i 1 * B 1 j
+/-- a 2×2 matrix by its four entries (strict, so that long products stay linear). -/
+structure M2 (α : Type) where
+  a : α
+  b : α
+  c : α
+  d : α
+
+def M2.ofFn (m : Nat → Nat → α) : M2 α := ⟨m 0 0, m 0 1, m 1 0, m 1 1⟩
+
+def M2.toFn (x : M2 α) : Nat → Nat → α := fun i j =>
+  if i = 0 then (if j = 0 then x.a else x.b) else (if j = 0 then x.c else x.d)
+
+def M2.mul (x y : M2 α) : M2 α :=
+  ⟨x.a * y.a + x.b * y.c, x.a * y.b + x.b * y.d, x.c * y.a + x.d * y.c, x.c * y.b + x.d * y.d⟩
+
+def M2.one : M2 α := ⟨1, 0, 0, 1⟩
 
 /-- `reduce(matmul, matrix_map[q])`: product of the factors on qubit `q`, in order. -/
-def STerm.qubitMatrix (t : STerm α) (q : Nat) : Nat → Nat → α :=
+def STerm.qubitM2 (t : STerm α) (q : Nat) : M2 α :=
   match t.factors.filter (fun s => s.q == q) with
-  | [] => eye2
-  | s :: ss => ss.foldl (fun acc r => mat2Mul acc r.mat) s.mat
+  | [] => M2.one
+  | s :: ss => ss.foldl (fun acc r => M2.mul acc (M2.ofFn r.mat)) (M2.ofFn s.mat)
+
+def STerm.qubitMatrix (t : STerm α) (q : Nat) : Nat → Nat → α := (t.qubitM2 q).toFn
 
 /-- bit `p` (from the most significant) of a local index on `k` qubits. -/
 def localBit (k p i : Nat) : Nat := (i >>> (k - 1 - p)) % 2
